@@ -127,10 +127,13 @@ impl StressRunner {
     fn iter(&self, toks: &[&str]) -> String {
         let (writers, iters, keys, rounds, seed) =
             (arg(toks, "writers", 3), arg(toks, "iters", 2), arg(toks, "keys", 40), arg(toks, "rounds", 300), arg(toks, "seed", 1));
+        // churn=c: c more threads insert and invalidate keys OUTSIDE the resident set [0, keys) all the time
+        // (they may or may not be yielded); the resident keys must still be yielded exactly once
+        let churn = arg(toks, "churn", 0);
         let cache: Cache<u64, u64, VBuild> = {
             let mut b = Cache::builder();
             if let Some(c) = self.cfg.cap {
-                b = b.max_capacity(c.max(keys * 2));
+                b = b.max_capacity(c.max(keys * 4));
             }
             b.build_with_hasher(VBuild(self.cfg.hasher))
         };
@@ -161,7 +164,47 @@ impl StressRunner {
                 }
             }));
         }
+        for c in 0..churn {
+            let (cache, stop) = (cache.clone(), stop.clone());
+            hs.push(std::thread::spawn(move || {
+                let mut rng = Lcg(seed.wrapping_add(900 + c * 31));
+                let mut n = 0u64;
+                while !stop.load(Ordering::SeqCst) {
+                    let k = keys + rng.next() % keys;
+                    n += 1;
+                    if rng.next() % 3 == 0 {
+                        cache.invalidate(&k);
+                    } else {
+                        cache.insert(k, n);
+                    }
+                    if n % 97 == 0 {
+                        cache.sync();
+                    }
+                }
+            }));
+        }
         let problem: Arc<Mutex<Option<String>>> = Arc::new(Mutex::new(None));
+        if churn > 0 {
+            // deterministic prologue: keys inserted between the creation of an iterator and its first step
+            let it = cache.iter();
+            for k in 0..keys {
+                cache.insert(2 * keys + k, 7);
+            }
+            let mut seen = vec![0u32; keys as usize];
+            for e in it {
+                if *e.key() < keys {
+                    seen[*e.key() as usize] += 1;
+                }
+            }
+            if let Some((k, c)) = seen.iter().enumerate().find(|(_, c)| **c != 1) {
+                *problem.lock().unwrap() =
+                    Some(format!("resident key {} yielded {} times by an iterator created before {} other keys were inserted", k, c, keys));
+            }
+            for k in 0..keys {
+                cache.invalidate(&(2 * keys + k));
+            }
+            cache.sync();
+        }
         let total = Arc::new(AtomicU64::new(0));
         let mut is = Vec::new();
         for _ in 0..iters {
@@ -175,6 +218,9 @@ impl StressRunner {
                     let mut seen = vec![0u32; keys as usize];
                     for (k, v) in &got {
                         if *k >= keys {
+                            if churn > 0 && *k < 3 * keys {
+                                continue;
+                            }
                             *problem.lock().unwrap() = Some(format!("iteration yielded unknown key {}", k));
                             return;
                         }
